@@ -794,11 +794,14 @@ impl TryFrom<&[u8]> for AdcV3Packet {
             .map(|b| i16::from_be_bytes(b.try_into().unwrap()))
             .collect();
 
+        // A corrupted packet can request fewer than 2 samples; no waveform is
+        // valid then (avoid the underflow).
+        let max_samples = requested_samples.saturating_sub(2);
         if waveform.len() < BASELINE_SAMPLES {
             return Err(Self::Error::BadNumberOfSamples {
                 found: waveform.len(),
                 min: BASELINE_SAMPLES,
-                max: requested_samples - 2,
+                max: max_samples,
             });
         }
         let data_baseline = {
@@ -836,14 +839,14 @@ impl TryFrom<&[u8]> for AdcV3Packet {
                 return Err(Self::Error::BadNumberOfSamples {
                     found: waveform.len(),
                     min: last_index + 1,
-                    max: requested_samples - 2,
+                    max: max_samples,
                 });
             }
-            if waveform.len() > requested_samples - 2 {
+            if waveform.len() > max_samples {
                 return Err(Self::Error::BadNumberOfSamples {
                     found: waveform.len(),
                     min: last_index + 1,
-                    max: requested_samples - 2,
+                    max: max_samples,
                 });
             }
         } else {
@@ -859,7 +862,7 @@ impl TryFrom<&[u8]> for AdcV3Packet {
                     return Err(Self::Error::BadNumberOfSamples {
                         found: waveform.len(),
                         min: last_index + 1,
-                        max: requested_samples - 2,
+                        max: max_samples,
                     });
                 }
             } else if keep_last != 0 {
@@ -868,11 +871,11 @@ impl TryFrom<&[u8]> for AdcV3Packet {
                     limit: 0,
                 });
             }
-            if waveform.len() != requested_samples - 2 {
+            if waveform.len() != max_samples {
                 return Err(Self::Error::BadNumberOfSamples {
                     found: waveform.len(),
-                    min: requested_samples - 2,
-                    max: requested_samples - 2,
+                    min: max_samples,
+                    max: max_samples,
                 });
             }
         }
